@@ -3,7 +3,11 @@ package facesim
 import (
 	"bytes"
 	"fmt"
+	"net"
+	"os"
+	"path/filepath"
 	"testing"
+	"time"
 
 	"github.com/named-data/ndnd/fw/core"
 	"github.com/named-data/ndnd/fw/defn"
@@ -27,6 +31,10 @@ type LinkConfig struct {
 	InFace  bool   `json:"inface_ind"` // sender adds incoming-face indication
 	Threads int    `json:"threads"`    // forwarding threads behind the receiver
 	Pop     string `json:"population"` // clean | loss | dup
+	// Wire: "" = the sender's transport is simulated (frames are captured at sendFrame); "tcp" / "unix" = the sender
+	// runs on the repository's real TCP / Unix-stream transport over a loopback connection, and the frames are what
+	// arrives at the other end of the socket
+	Wire string `json:"wire,omitempty"`
 }
 
 type LinkOp struct {
@@ -51,6 +59,9 @@ func (LinkEngine) Generate(prop string, r *kit.Rand, tier string) *kit.Scenario[
 	c.InFace = r.Chance(0.3)
 	c.Threads = kit.Pick(r, []int{1, 2, 8, 32})
 	c.Pop = kit.Pick(r, []string{"clean", "clean", "clean", "loss", "dup"})
+	if r.Chance(0.04) {
+		c.Wire = kit.Pick(r, []string{"tcp", "unix"})
+	}
 	switch r.Weighted([]int{3, 3, 2, 2}) {
 	case 0:
 		c.MTU = r.Range(128, 300)
@@ -307,9 +318,29 @@ func (e LinkEngine) Run(t *testing.T, ctx *kit.Ctx, sc *kit.Scenario[LinkConfig,
 	sopt := face.MakeNDNLPLinkServiceOptions()
 	sopt.IsFragmentationEnabled = c.Frag
 	sopt.IsIncomingFaceIndicationEnabled = c.InFace
-	tx := face.MakeNDNLPLinkService(face.MakeSimTransport(defn.MakeNullFaceURI(), defn.MakeNullFaceURI(), defn.NonLocal, defn.PointToPoint, c.MTU,
-		func(f []byte) { frames = append(frames, f) }), sopt)
-	tx.SetFaceID(1)
+	var tx *face.NDNLPLinkService
+	var wire *realWire
+	if c.Wire != "" {
+		wire = openRealWire(c.Wire)
+		if wire == nil {
+			ctx.Probe("loopback-sockets-unavailable")
+		}
+	}
+	if wire != nil {
+		defer wire.close()
+		if wire.tcp != nil {
+			tx = face.MakeNDNLPLinkService(wire.tcp, sopt)
+		} else {
+			tx = face.MakeNDNLPLinkService(wire.unix, sopt)
+		}
+		tx.SetFaceID(1)
+		tx.SetMTU(c.MTU)
+		ctx.Probe("sender-on-real-" + c.Wire + "-transport")
+	} else {
+		tx = face.MakeNDNLPLinkService(face.MakeSimTransport(defn.MakeNullFaceURI(), defn.MakeNullFaceURI(), defn.NonLocal, defn.PointToPoint, c.MTU,
+			func(f []byte) { frames = append(frames, f) }), sopt)
+		tx.SetFaceID(1)
+	}
 
 	type msg struct {
 		op      LinkOp
@@ -373,6 +404,14 @@ func (e LinkEngine) Run(t *testing.T, ctx *kit.Ctx, sc *kit.Scenario[LinkConfig,
 			}
 			frames = nil
 			tx.VerifSendNow(dispatch.OutPkt{Pkt: pkt, PitToken: m.outTok, InFace: utils.IdPtr(uint64(7))})
+			if wire != nil {
+				// a sentinel packet follows on the same (ordered, reliable) connection: what arrived before it is
+				// everything the transport wrote for this message
+				sraw := sentinelPacket(len(msgs))
+				sp, _, _ := spec.ReadPacket(enc.NewBufferReader(append([]byte(nil), sraw...)))
+				tx.VerifSendNow(dispatch.OutPkt{Pkt: &defn.Pkt{L3: sp, Raw: sraw, Name: sp.Interest.NameV}})
+				frames = wire.readUntilSentinel(len(msgs))
+			}
 			m.frames = frames
 			m.done = make([]int, len(frames))
 			m.dropped = make([]bool, len(frames))
@@ -479,4 +518,130 @@ func (e LinkEngine) Run(t *testing.T, ctx *kit.Ctx, sc *kit.Scenario[LinkConfig,
 	ctx.State(res.Digest)
 	res.NonTrivial = nontrivial
 	return res
+}
+
+
+// ---------------------------------------------------------------- real socket under the sender
+
+// realWire is a loopback TCP or Unix-stream connection: one end belongs to the repository's real transport, the
+// other to the harness. TCP and Unix streams are reliable and ordered, so what the harness reads up to the sentinel
+// is exactly what the transport wrote - no timing enters the verdict.
+type realWire struct {
+	tcp     *face.UnicastTCPTransport
+	unix    *face.UnixStreamTransport
+	peer    net.Conn
+	buf     []byte
+	cleanup func()
+}
+
+var wireSeq int
+
+func openRealWire(kind string) *realWire {
+	wireSeq++
+	w := &realWire{}
+	switch kind {
+	case "tcp":
+		ln, err := net.Listen("tcp4", "127.0.0.1:0")
+		if err != nil {
+			return nil
+		}
+		defer ln.Close()
+		peer, err := net.Dial("tcp4", ln.Addr().String())
+		if err != nil {
+			return nil
+		}
+		srv, err := ln.Accept()
+		if err != nil {
+			peer.Close()
+			return nil
+		}
+		tr, err := face.AcceptUnicastTCPTransport(srv, nil, face.PersistencyPersistent)
+		if err != nil {
+			panic("harness: AcceptUnicastTCPTransport: " + err.Error())
+		}
+		w.tcp, w.peer = tr, peer
+		w.cleanup = func() { tr.CloseConn(); peer.Close() }
+	case "unix":
+		path := filepath.Join(os.TempDir(), fmt.Sprintf("verif-%d-%d.sock", os.Getpid(), wireSeq))
+		os.Remove(path)
+		ln, err := net.Listen("unix", path)
+		if err != nil {
+			return nil
+		}
+		defer ln.Close()
+		peer, err := net.Dial("unix", path)
+		if err != nil {
+			os.Remove(path)
+			return nil
+		}
+		srv, err := ln.Accept()
+		if err != nil {
+			peer.Close()
+			os.Remove(path)
+			return nil
+		}
+		tr, err := face.MakeUnixStreamTransport(defn.MakeFDFaceURI(1000+wireSeq), defn.MakeUnixFaceURI(path), srv)
+		if err != nil {
+			panic("harness: MakeUnixStreamTransport: " + err.Error())
+		}
+		w.unix, w.peer = tr, peer
+		w.cleanup = func() { tr.Close(); peer.Close(); os.Remove(path) }
+	default:
+		return nil
+	}
+	return w
+}
+
+func (w *realWire) close() { w.cleanup() }
+
+func sentinelPacket(k int) []byte {
+	n, _ := enc.NameFromStr(fmt.Sprintf("/verif-sentinel/%d", k))
+	ei, err := spec.Spec{}.MakeInterest(n, &ndn.InterestConfig{Nonce: utils.IdPtr(uint64(777))}, nil, nil)
+	if err != nil {
+		panic("harness: sentinel: " + err.Error())
+	}
+	return ei.Wire.Join()
+}
+
+// readUntilSentinel returns the TLV blocks (frames) read from the harness end of the socket up to, not including,
+// the sentinel Interest. Not seeing the sentinel within 30 s of real time is harness trouble (exit 2), never a verdict.
+func (w *realWire) readUntilSentinel(k int) [][]byte {
+	want := fmt.Sprintf("/verif-sentinel/%d", k)
+	var frames [][]byte
+	w.peer.SetReadDeadline(time.Now().Add(30 * time.Second))
+	tmp := make([]byte, 65536)
+	for {
+		// complete blocks in the buffer
+		for {
+			_, tl, ok := readVar(w.buf)
+			if !ok {
+				break
+			}
+			l, ll, ok := readVar(w.buf[tl:])
+			if !ok || uint64(len(w.buf)-tl-ll) < l {
+				break
+			}
+			blk := append([]byte(nil), w.buf[:tl+ll+int(l)]...)
+			w.buf = w.buf[tl+ll+int(l):]
+			if p, _, err := spec.ReadPacket(enc.NewBufferReader(append([]byte(nil), blk...))); err == nil {
+				var in *spec.Interest
+				if p.Interest != nil {
+					in = p.Interest
+				} else if p.LpPacket != nil && p.LpPacket.FragCount == nil {
+					if q, _, err := spec.ReadPacket(enc.NewWireReader(p.LpPacket.Fragment)); err == nil {
+						in = q.Interest
+					}
+				}
+				if in != nil && in.NameV.String() == want {
+					return frames
+				}
+			}
+			frames = append(frames, blk)
+		}
+		n, err := w.peer.Read(tmp)
+		w.buf = append(w.buf, tmp[:n]...)
+		if err != nil && n == 0 {
+			panic("harness: socket closed or timed out before the sentinel packet arrived: " + err.Error())
+		}
+	}
 }
